@@ -151,11 +151,13 @@ def check(tier, seed, replay=None):
             if rnd.random() < 0.2:
                 recipes.append({"kind": "ctx", "onlyObj": only, "srcs": [hexs(linebreak_stream(rnd))], "files": rnd.random() < 0.3, "wrapped": rnd.random() < 0.3, "lenient": True})
                 continue
+            # a third of them behind --skip / --take: the rows left are those of the unlimited run (a skipped value counts in &index and &index-in-file)
+            lim = [rnd.choice([0, 1, 2, 3]), rnd.choice([-1, 0, 1, 2, 4])] if rnd.random() < 0.35 else None
             if rnd.random() < 0.5:
-                recipes.append({"kind": "ctx", "onlyObj": only, "srcs": [hexs(data)], "files": False, "wrapped": rnd.random() < 0.3})
+                recipes.append({"kind": "ctx", "onlyObj": only, "srcs": [hexs(data)], "files": False, "wrapped": rnd.random() < 0.3, "lim": lim})
             else:
                 parts = [clean_stream(rnd, rnd.choice([0, 1, 2, 4])) for _ in range(rnd.choice([1, 2, 3]))]      # every file a clean stream of its own
-                recipes.append({"kind": "ctx", "onlyObj": only, "srcs": [hexs(p) for p in parts], "files": True, "wrapped": rnd.random() < 0.3})
+                recipes.append({"kind": "ctx", "onlyObj": only, "srcs": [hexs(p) for p in parts], "files": True, "wrapped": rnd.random() < 0.3, "lim": lim})
         # files that end inside a value, with the per-file ordinal selected: the next file starts at 0 whatever the previous one left open
         for parts in ([b'{"a":1} [1,', b'2] 3\n', b'4 "x'], [b'1 2 {"k":', b'{"k":2} 5', b'6'], [b'"abc', b'"d" tru', b'true [1]'], [b'[1,[2', b'7\n8\n', b'9']):
             for policy in ("ignore", "stderr"):
@@ -215,6 +217,8 @@ def check(tier, seed, replay=None):
             add(ri, {"argv": rc["ops"] + ["--select=&index =i"], "stdin": "", "files": rc["parts"], "names": rc["names"], "links": rc["links"]})
         elif k == "ctx":
             argv = (CTX_SELECT_WRAPPED if rc.get("wrapped") else CTX_SELECT) + (["--only-objects-and-arrays"] if rc["onlyObj"] else [])
+            if rc.get("lim"):
+                argv = argv + (["--skip=%d" % rc["lim"][0]] if rc["lim"][0] else []) + (["--take=%d" % rc["lim"][1]] if rc["lim"][1] != -1 else [])
             if rc.get("wrapped") and ri % 2 == 0:
                 argv = ["--split-by=(push [] .)"] + argv          # one element per record, the record itself: the selectors still describe the record
             if rc["files"]:
@@ -262,6 +266,8 @@ def check(tier, seed, replay=None):
             names = [PL.cps(p) for p in o[0].get("paths", [])] if rc["files"] else []
             rec.update({"res": o[0]["res"], "out": list(bytes.fromhex(o[0]["out"])), "srcs": [list(bytes.fromhex(s)) for s in rc["srcs"]], "names": names})
             rec["_blobs"] = [bytes.fromhex(s) for s in rc["srcs"]]
+            if rc.get("lim"):
+                rec["skip"], rec["take"] = rc["lim"]
             if rc.get("lenient"):
                 rec["rsrcs"] = [list(sanitize(bytes.fromhex(s))) for s in rc["srcs"]]
                 rec["_blobs"] += [bytes(x) for x in rec["rsrcs"]]
